@@ -61,6 +61,7 @@ theorem M_neg (N : Nat) : ClosedNeg (M N) where
   wStartTLS := fun s h => h
   wOther := fun s id h => h
   choose := fun s h => h
+  advert := fun s ids h => h
   oracle := fun s o h => h
   neg := fun s m id h => h
   first := fun s h => h
@@ -320,8 +321,13 @@ theorem step_nf (cfg : FCfg) (fuel : Nat) (s : Sess) (h : meas s < fuel) : NoFue
   | stop w s' => exact NoFuel_stop w s' hr
   | ok a s2 =>
     dsimp only
-    have hnf := negotiateFeatures_nf cfg s2.first { s2 with first := false }
-    cases hh : negotiateFeatures cfg s2.first { s2 with first := false } with
+    have hnf : NoFuel (negotiateFeaturesAdv cfg s2.first { s2 with first := false }) := by
+      have h0 := negotiateFeatures_nf cfg s2.first { s2 with first := false }
+      unfold negotiateFeaturesAdv
+      cases hq : negotiateFeatures cfg s2.first { s2 with first := false } with
+      | stop w q => rw [hq] at h0; cases w <;> first | exact h0 | trivial
+      | ok o q => trivial
+    cases hh : negotiateFeaturesAdv cfg s2.first { s2 with first := false } with
     | stop w s' => rw [hh] at hnf; exact NoFuel_stop w s' hnf
     | ok out s3 => trivial
 
@@ -340,8 +346,11 @@ theorem step_dec (cfg : FCfg) (fuel : Nat) (s : Sess) :
   | ok a s2 =>
     dsimp only
     have h2 : meas s2 ≤ meas s := hr
-    have hd := negotiateFeatures_dec cfg s2.first { s2 with first := false }
-    cases hh : negotiateFeatures cfg s2.first { s2 with first := false } with
+    have hd := addAdv_both (Pok := fun (_ : FOut) s' => meas s' < meas { s2 with first := false }) (Pstop := fun _ => True)
+      (peekAdv cfg { s2 with first := false }) s2.tls _ (fun a s h => h) (fun s h => h)
+      (negotiateFeatures_dec cfg s2.first { s2 with first := false })
+    change (negotiateFeaturesAdv cfg s2.first { s2 with first := false }).Both _ _ at hd
+    cases hh : negotiateFeaturesAdv cfg s2.first { s2 with first := false } with
     | stop w s' => trivial
     | ok out s3 =>
       rw [hh] at hd
